@@ -44,7 +44,12 @@ def _text_equiv(e):
     u = _kids(te, 'Unicode')
     p = _kids(te, 'PlainText')
     text = (u[0].text or '') if u else ((p[0].text or '') if p else '')
-    return {'text': text, 'conf': te.get('conf')}
+    # a TextEquiv whose Unicode is empty (or white space only) next to a non-empty PlainText: "the same text as in
+    # the file" does not say which of the two is "the text" then (the reference reader above takes Unicode; a parser
+    # falling back to the PlainText rendering reads the same file no less faithfully), so both answers are accepted
+    # (false alarm of probe 2, behaviour_preserving/C01-plaintext-fallback-bp; DESIGN §12.9)
+    alt = (p[0].text or '') if (u and p and not text.strip() and (p[0].text or '').strip()) else None
+    return {'text': text, 'conf': te.get('conf'), 'alt_text': alt}
 
 
 def read_word(e):
@@ -645,6 +650,9 @@ class C01(DocCheck):
         want = '' if te is None else te['text']
         have = got if isinstance(got, str) else ('' if got is None else repr(got))
         if want == have:
+            return
+        alt = None if te is None else te.get('alt_text')
+        if alt is not None and have in (alt, alt.strip()):
             return
         if want.strip() == have:
             bad('text-edge-whitespace', f'{where}: {kind} text {want!r} parsed as {got!r}')
